@@ -4,7 +4,8 @@ tier=${1:-quick}
 cd "$(dirname "$0")/.."
 mkdir -p work/runall
 fail=0
-for i in 01 02 03 04 05 06 07 08 09 10 11 12 13 14 15 16 17 18 19 20; do
+# (RUNALL_ORDER="10 11 03 ..." runs the given checks, in that order)
+for i in ${RUNALL_ORDER:-01 02 03 04 05 06 07 08 09 10 11 12 13 14 15 16 17 18 19 20}; do
   s=$(date +%s)
   ./check C$i $tier > work/runall/C$i-$tier.log 2>&1
   rc=$?
